@@ -1,5 +1,6 @@
 import MpsProps.Anchors.C18
 import MpsProofs.Pool
+import MpsProofs.Readers
 import MpsGen.Pool
 /-
   C18 — The worker pool always returns and never loses workers.
@@ -158,6 +159,23 @@ theorem nil_pool_search (answers : List (Option Val)) (n : Nat) (hfuel : n ≤ (
     have := List.mem_filter.mp (List.mem_of_mem_take hx)
     subst hn; simp at this
 
+/-! ### The random stream of a search through the pool (sample.Paillier): pool.LockedReader
+
+The workers of one `Search` read the caller's stream through ONE locked reader: their Read calls are serialised, so —
+whatever the interleaving — k calls for n bytes are handed the k consecutive blocks of the stream. -/
+
+/-- the i-th serialised read gets bytes [n·i, n·(i+1)) of the stream: no byte is handed out twice -/
+theorem locked_reader_block (s : List UInt8) (n k i : Nat) (h : i < k) :
+    (Readers.serve s n k)[i]? = some ((s.drop (n * i)).take n) :=
+  Readers.serve_getElem? n k s i h
+
+/-- … and together the reads consume exactly the first n·k bytes -/
+theorem locked_reader_consumes_prefix (s : List UInt8) (n k : Nat) :
+    (Readers.serve s n k).flatten = s.take (n * k) :=
+  Readers.serve_flatten n k s
+
+example : Readers.serve [1, 2, 3, 4, 5, 6, 7] 2 3 = [[1, 2], [3, 4], [5, 6]] := by decide
+
 /-! ### The code as it stood in /repo: witnesses -/
 
 /-- W = 1, n = 1: command, result write, decrement — and the caller's load sees 0 and returns
@@ -287,6 +305,17 @@ theorem gen_alone_and_newPool :
       ["search bool", "ctr *int64", "ctrChanged chan<- struct{}", "i int", "f func(int) interface{}",
        "results []interface{}"] ∧
     MpsGen.Pool.uses = ["pkg/math/sample/prime.go: pl.Search(2, …)"] := by decide
+
+/-- the stream of a prime search is read through ONE pool.LockedReader: `Read` is lock / deferred unlock / one Read of the
+    wrapped reader, and sample.Paillier makes the locked reader BEFORE the search, outside the closure the workers run
+    (what `Readers.serve` models: the workers' reads are serialised) -/
+theorem gen_locked_reader :
+    MpsGen.Pool.lockedRead = ["r.m.Lock()", "defer r.m.Unlock()", "return r.reader.Read(p)"] ∧
+    MpsGen.Pool.paillierSearch =
+      ["if hp, hq, ok := paillierPrimeHook(); ok {", "return hp, hq", "}",
+       "reader := pool.NewLockedReader(rand)",
+       "results := pl.Search(2, func() interface{} { q := tryBlumPrime(reader) if q == nil { return nil } return q })",
+       "p, q = results[0].(*saferith.Nat), results[1].(*saferith.Nat)", "return"] := by decide
 
 /-- the yield points (hook H2) sit where the correspondence suite expects them (repaired code; or
     the code before the repair with hooks/pool_hooks.diff applied) — or are absent -/
